@@ -91,6 +91,7 @@ type hcScenario struct {
 	Sc     int      `json:"sc"`
 	Mode   int      `json:"mode"`
 	FragMs int      `json:"fragMs"`
+	Https  bool     `json:"https"` // HLS switched on by hls.enable_https alone
 	Steps  []hcStep `json:"steps"`
 }
 
@@ -195,6 +196,7 @@ type hcRun struct {
 	fileEp map[string]int
 	ts     uint32
 	nmsg   int
+	nbDir  string // directory of the neighbour: another stream name of the same server that is live all the time
 }
 
 func (r *hcRun) groupId(g *logic.Group) int {
@@ -217,7 +219,8 @@ func (r *hcRun) observe() M {
 	if g != nil {
 		mux, _ = g.VerifSnapshot()["hlsMuxer"].(bool)
 	}
-	obs := M{"gid": r.groupId(g), "mux": mux, "dir": false, "pl": "none", "plEps": []int{}, "nseg": 0, "segsOk": true, "eps": []int{}}
+	obs := M{"gid": r.groupId(g), "mux": mux, "dir": false, "pl": "none", "plEps": []int{}, "nseg": 0, "segsOk": true, "eps": []int{},
+		"nb": hcNeighbourIntact(r.nbDir)}
 	st, err := os.Stat(r.dir)
 	if err != nil || !st.IsDir() {
 		return obs
@@ -273,6 +276,24 @@ func (r *hcRun) observe() M {
 	return obs
 }
 
+// hcNeighbourIntact: the neighbour's directory exists, its live playlist parses, lists segments, and every listed
+// segment is there as a whole number of TS packets
+func hcNeighbourIntact(dir string) bool {
+	b, err := os.ReadFile(filepath.Join(dir, "playlist.m3u8"))
+	if err != nil {
+		return false
+	}
+	ok := true
+	pl := proj.ParseM3u8(b, func(uri string) [2]int {
+		fi, err := os.Stat(filepath.Join(dir, uri))
+		if err != nil || fi.Size() == 0 || fi.Size()%188 != 0 {
+			ok = false
+		}
+		return [2]int{0, 0}
+	})
+	return ok && pl.Ok && !pl.Endlist && len(pl.Ents) > 0
+}
+
 func hcSorted(m map[int]bool) []int {
 	o := []int{}
 	for k := range m {
@@ -320,13 +341,28 @@ func runHlsCleanupScenario(sc *hcScenario, emitEv func(M)) {
 	stream := fmt.Sprintf("hc%d", sc.Sc)
 	fragNum, delThr := 2, 1
 	conf := fmt.Sprintf(`{"conf_version":"v0.4.1","rtmp":{"enable":false,"gop_num":0},"httpflv":{"enable":false,"gop_num":0},
-	 "hls":{"enable":true,"out_path":"%s/hls/","fragment_duration_ms":%d,"fragment_num":%d,"delete_threshold":%d,"cleanup_mode":%d},
-	 "log":{"level":5,"filename":"","is_to_stdout":false,"assert_behavior":1}}`, root, sc.FragMs, fragNum, delThr, sc.Mode)
+	 "hls":{"enable":%v,"enable_https":%v,"out_path":"%s/hls/","fragment_duration_ms":%d,"fragment_num":%d,"delete_threshold":%d,"cleanup_mode":%d},
+	 "log":{"level":5,"filename":"","is_to_stdout":false,"assert_behavior":1}}`, !sc.Https, sc.Https, root, sc.FragMs, fragNum, delThr, sc.Mode)
 	sm := logic.NewServerManager(func(option *logic.Option) { option.ConfRawContent = []byte(conf) })
-	r := &hcRun{sm: sm, stream: stream, dir: filepath.Join(root, "hls", stream), fileEp: map[string]int{}, ts: 1000}
+	r := &hcRun{sm: sm, stream: stream, dir: filepath.Join(root, "hls", stream), fileEp: map[string]int{}, ts: 1000,
+		nbDir: filepath.Join(root, "hls", stream+"nb")}
 	delay := time.Duration(sc.FragMs*(fragNum+delThr)) * time.Millisecond
 	sep := hcGuard + hcMargin + hcSlack
 	emitEv(M{"ev": "reset", "sc": sc.Sc, "mode": sc.Mode, "delayMs": int(delay / time.Millisecond)})
+
+	// the neighbour publishes first, closes two fragments and stays live to the end of the scenario
+	nb := &hcRun{ts: 5000}
+	custNb, err := sm.AddCustomizePubSession(stream + "nb")
+	if err != nil {
+		emitEv(M{"ev": "late", "step": -1, "why": "neighbour: " + err.Error()})
+		return
+	}
+	defer sm.DelCustomizePubSession(custNb)
+	nb.feed(custNb, true, sc.FragMs)
+	if !hcNeighbourIntact(r.nbDir) {
+		emitEv(M{"ev": "late", "step": -1, "why": "the neighbour stream has no playlist with whole segments"})
+		return
+	}
 
 	var cust logic.ICustomizePubSessionContext
 	var flv *httpflv.SubSession
